@@ -4,8 +4,8 @@
 
    What a netlist is, for the comparer (everything it can read):
      netlist  : name, EDIF.original_identifier, top instance, libraries (ordered)
-                (the namespace manager knows the names of all elements: true for every netlist
-                built, parsed or - since the repair of clone() - cloned through the API)
+                (children are found by their exact name in a table name -> first child built by
+                the comparer itself: no query, no pattern, no namespace manager involved)
      library  : name, original identifier, definitions (ordered)
      definition: name, original identifier, ports, cables, children (ordered)
      port     : name, original identifier, direction, is_array, number of pins (lower index kept,
@@ -16,7 +16,8 @@
      pin      : inner pin = (name of its port, index in that port);
                 outer pin = (name of its instance, name of the port of the inner pin, index);
                 the instance of an outer pin is the child of the enclosing definition with that
-                name (names of siblings are unique: the namespace manager refuses duplicates), its reference gives
+                name (names of siblings are unique: the namespace manager refuses duplicates;
+                a child without a name is not found that way: PAnon carries its reference), its reference gives
                 the definition/library names of the inner pin's port (Instance._pins mirrors the
                 reference: property C02);
                 dangling outer pin = pin of an instance that was removed from its definition
